@@ -47,6 +47,28 @@ def d1_free(facts, rep):
         ok = bool(fo) and bool(fp) and all(dominated_by_edges(fn, c[0], te)[0] for c in fo) and all(dominated_by_edges(fn, c[0], fe)[0] for c in fp)
         rep.ob('D1', 'K4', fn, 'the owner frees into the private list, any other thread into the public list', ok,
                'a foreign thread can modify the owner\'s private free list (no synchronisation): the same object is handed out twice')
+    # An over-aligned small object can be an interior address of its slab object (allocateAligned shifts it).  What is linked
+    # into a free list must be the START of the object: on both branches of freeSmallObject the pointer that reaches the free
+    # list went through findObjectToFree() - at the call site or inside the callee.
+    from engine.rules import vars_initialised_from
+    for fn in facts.get(RI + 'freeSmallObject'):
+        conv = [c[1] for c in calls_named(fn, ('findObjectToFree',))]
+        cvars = vars_initialised_from(fn, conv)
+        for pos, sx, node, d in calls_named(fn, ('freeOwnObject', 'freePublicObject')):
+            a = node.get('a', [])
+            at_site = bool(a) and (bool(fn.subtree(a[0]) & set(conv)) or fn.n(fn.strip(a[0])).get('v') in cvars)
+            g = facts.fns.get(node.get('fn'))
+            in_callee = False
+            if g is not None:
+                gp = [p_['v'] for p_ in g.d.get('params', [])]
+                for c2 in calls_named(g, ('findObjectToFree',)):
+                    aa = c2[2].get('a', [])
+                    if aa and g.n(g.strip(aa[0])).get('v') in gp:
+                        in_callee = True
+            rep.ob('D1', 'K7', fn, '%s receives the start of the object (findObjectToFree), not the user pointer' % d['n'], at_site or in_callee,
+                   'the user pointer of a shifted over-aligned object is linked into the free list as it is: the next allocation from that '
+                   'list returns an interior address - it overlaps the following object and scalable_msize is below the request',
+                   ln=node['ln'], key_extra='conv' + d['n'])
     for fn in facts.get(RI + 'Block::freePublicObject'):
         ws = ops_on(fn, 'publicFreeList', ('store', 'rmw', 'cas'))
         cas = [(p, o) for p, o in ws if o['kind'] == 'cas']
